@@ -477,4 +477,4 @@ def buffer_model_unit(run, tag="buffermodel"):
         if r.violated or not r.ok:
             run.error("MC_Buffer/%s: %s" % (cfg, r.violated or (r.error or "timeout")[:300]))
     run.unit(tag, module="FlexBuffer", configs=4, distinct=tot,
-             invariants=["Bounds", "Sentinels", "Conservation", "NoJunk", "DoneOK", "OnlyDocumentedFatal"], properties=["GrowthOK", "Terminates"])
+             invariants=["Bounds", "Sentinels", "Conservation", "NoJunk", "DoneOK", "OnlyDocumentedFatal"], properties=["GrowthOK", "Terminates", "Refines (FlexStream: the abstraction FlexScanner uses)"])
